@@ -180,10 +180,30 @@ pub fn load_known_findings() -> Vec<KnownFinding> {
     }
 }
 
+thread_local! {
+    /// source file of the last panic raised on this thread (set by the panic hook)
+    pub static LAST_PANIC_FILE: std::cell::RefCell<String> = const { std::cell::RefCell::new(String::new()) };
+}
+
+/// Was the last panic of this thread raised by the checker's own code (as opposed to the system under test or
+/// a library it calls)?
+pub fn last_panic_was_in_checker() -> bool {
+    LAST_PANIC_FILE.with(|f| {
+        let f = f.borrow();
+        f.starts_with("src/") || f.contains("/verif/sim/")
+    })
+}
+
 pub fn silence_panics() {
     // panics inside simulated runs are caught and classified; a panic of the main thread is a defect of the
     // harness itself and must be visible (exit code 2, not a silent 101)
-    std::panic::set_hook(Box::new(|info| {
+    let debug = std::env::var("VERIF_DEBUG_PANICS").is_ok();
+    std::panic::set_hook(Box::new(move |info| {
+        if debug {
+            eprintln!("debug: panic: {}", info);
+        }
+        let file = info.location().map(|l| l.file().to_string()).unwrap_or_default();
+        LAST_PANIC_FILE.with(|f| *f.borrow_mut() = file);
         if std::thread::current().name() == Some("main") {
             eprintln!("HARNESS-ERROR: the checker itself panicked: {}", info);
             std::process::exit(2);
